@@ -798,7 +798,10 @@ class Exec:
             args.append(s.eval(a, env))
         kwargs = {}
         for k in e.keywords:
-            if k.arg is None: raise Unsupported("**kwargs", e)
+            if k.arg is None:
+                m_ = s.eval(k.value, env)          # **mapping: a dict with literal string keys
+                if not isinstance(m_, dict) or not all(isinstance(q, str) for q in m_): raise Unsupported("**kwargs from %r" % (m_,), e)
+                kwargs.update(m_); continue
             kwargs[k.arg] = s.eval(k.value, env)
         return s.apply(f, args, kwargs, e)
 
@@ -892,6 +895,16 @@ class Exec:
     def slice(s, b, lo, hi, node):
         if isinstance(b, Opaque): return Opaque("str")
         if isinstance(b, str) and all(isinstance(v, (int, type(None))) for v in (lo, hi)): return b[lo:hi]
+        if isinstance(b, Post): b = post_as_seq(b, node)
+        if isinstance(b, Seq) and hi is None and (lo is None or (isinstance(lo, int) and lo >= 0)):
+            lo_ = lo or 0
+            if lo_ == 0: return Seq(b.n, b.fn, tag=b.tag)
+            # xs[lo:] of a list of symbolic length: max(n - lo, 0) elements, element j is xs[lo + j]
+            short = not s.decide(cmp('>=', lift(b.n), lo_), node)
+            if short: return PList([])
+            q = Seq(lift(b.n) - lo_, lambda i, b=b, lo_=lo_: b.fn(lift(i) + lo_), tag=('slice', b.tag, lo_))
+            if b.conds: q.conds = lambda i, b=b, lo_=lo_: b.conds(lift(i) + lo_)
+            return q
         xs = b.items if isinstance(b, PList) else b.xs if isinstance(b, Vec) else b if isinstance(b, (list, tuple)) else None
         if xs is None or not all(isinstance(v, (int, type(None))) for v in (lo, hi)): raise Unsupported("slice of %r" % (b,), node)
         r = xs[lo:hi]
@@ -1606,7 +1619,7 @@ BUILTINS = {'float': _float, 'int': _int, 'round': _round, 'getattr': _getattr, 
             'abs': _abs, 'max': _minmax(tmax, max), 'min': _minmax(tmin, min), 'list': _list, 'set': _set, 'copy': _copy,
             'filter': _filter, 'print': lambda s, *a, **k: None, 'str': lambda s, *a: (str(a[0]) if len(a) == 1 and isinstance(a[0], (int, str)) and not isinstance(a[0], bool) else Opaque("str")),
             'tuple': lambda s, x: tuple(x.items) if isinstance(x, PList) else (x if isinstance(x, Seq) else tuple(x)),          # a tuple of symbolic length: the element-wise list itself (never mutated)
-            'dict': lambda s: PDict(), 'enumerate': lambda s, x: _enumerate(s, x), 'zip': lambda s, *xs: _zip(s, *xs), 'isinstance': lambda s, x, c: _isinstance(s, x, c),
+            'dict': lambda s, *a, **k: _dict(s, *a, **k), 'all': lambda s, x: _allany(s, x, True), 'any': lambda s, x: _allany(s, x, False), 'enumerate': lambda s, x: _enumerate(s, x), 'zip': lambda s, *xs: _zip(s, *xs), 'isinstance': lambda s, x, c: _isinstance(s, x, c),
             'bool': lambda s, x: s.truth(x),
             'hash': lambda s, *a: (s.contracts['__fixed_clock__'] if s.contracts.get('__fixed_clock__') is not None else Opaque("hash")), 'type': lambda s, x: _type_of(s, x), 'open': lambda s, *a, **k: _open(s, *a, **k)}
 
@@ -1621,6 +1634,35 @@ def _enumerate(s, x):
         q.conds = x.conds
         return q
     raise Unsupported("enumerate(%r)" % (x,))
+
+
+def _dict(s, *a, **k):
+    d = PDict()
+    if len(a) == 1 and isinstance(a[0], dict): d.update(a[0])
+    elif a: raise Unsupported("dict(%r)" % (a,))
+    d.update(k)
+    return d
+
+
+def _allany(s, x, is_all):
+    """all()/any() over a list: concrete lists element by element; a list of symbolic length only when its generic element has a concrete truth value"""
+    if isinstance(x, Post): x = post_as_seq(x)
+    items = x.items if isinstance(x, PList) else list(x) if isinstance(x, (list, tuple)) else None
+    if items is not None:
+        ts = [s.truth(v) for v in items]
+        if all(isinstance(t, bool) for t in ts): return all(ts) if is_all else any(ts)
+        f = band(*[tob(t) for t in ts]) if is_all else bor(*[tob(t) for t in ts])
+        return f
+    if isinstance(x, Seq):
+        v = s.truth(x.fn(s.fresh('aa', 'I')))
+        if isinstance(v, bool):
+            if v == is_all: 
+                # all(): every element true -> True (also for the empty list); any(): every element false -> False
+                return is_all
+            nonempty = s.decide(cmp('>', lift(x.n), 0))
+            return (not is_all) if nonempty else is_all
+        raise Unsupported("all()/any() over a list of symbolic length with a symbolic condition")
+    raise Unsupported("all()/any() of %r" % (x,))
 
 
 def _zip(s, *xs):
